@@ -568,6 +568,20 @@ def isolation_process(tid: int, seed: int) -> list:
             sibs.append(s)
             s.put()
             s.run_on(one_txn=True)
+        if rng.random() < 0.6:
+            # ... and a sibling pair that is left MID-transaction in acknowledged mode with lost segments outstanding
+            # (state that lives in a class attribute or a module, not in the handler object, would leak from here)
+            now = Clock.now
+            s = pairmod.Pair(mkcfg(mode="ACK", immNak=rng.random() < 0.5, segLen=1, file=[1, 2, 3, 4, 5], seq0=77,
+                                   srcName="sibgap.bin", dstName="sibgapdst.bin"), keep_clock=True)
+            Clock.now = now
+            sibs.append(s)
+            s.put()
+            for _ in range(rng.randint(3, 5)):
+                s.run_on(max_turns=1, one_txn=True)
+            s.fault("drop", "sd")
+            for _ in range(rng.randint(2, 6)):
+                s.run_on(max_turns=1, one_txn=True)
         a = pairmod.Pair(cfg)
         try:
             tscript = rng.choice([{}, {("sd", rng.randint(0, 4)): "drop"}])
